@@ -54,13 +54,14 @@ type verifState struct {
 	counters map[string]*verifCounters
 	starts   map[string]wal.Offset
 	lastDone map[string]wal.Offset
+	started  map[string]bool
 }
 
 func verifStateFor(db *DB) *verifState {
 	if s, ok := verifStates.Load(db); ok {
 		return s.(*verifState)
 	}
-	s := &verifState{counters: make(map[string]*verifCounters), starts: make(map[string]wal.Offset), lastDone: make(map[string]wal.Offset)}
+	s := &verifState{counters: make(map[string]*verifCounters), starts: make(map[string]wal.Offset), lastDone: make(map[string]wal.Offset), started: make(map[string]bool)}
 	s.cond = sync.NewCond(&s.mx)
 	actual, _ := verifStates.LoadOrStore(db, s)
 	return actual.(*verifState)
@@ -91,6 +92,8 @@ func verifPoint(db *DB, table string, name string, offset wal.Offset) {
 		c.Applied++
 	case "table-start":
 		s.starts[table] = append(wal.Offset(nil), offset...)
+	case "wal-processing-started":
+		s.started[table] = true
 	}
 	s.cond.Broadcast()
 	s.mx.Unlock()
@@ -197,6 +200,16 @@ func VerifTableStart(db *DB, table string) (wal.Offset, bool) {
 	defer s.mx.Unlock()
 	o, ok := s.starts[table]
 	return o, ok
+}
+
+// VerifWALProcessingStarted tells whether the table's WAL-processing goroutine
+// has registered its insert task with the DB (DB.Close must not race with that
+// registration: sync.WaitGroup panics on Add concurrent with Wait).
+func VerifWALProcessingStarted(db *DB, table string) bool {
+	s := verifStateFor(db)
+	s.mx.Lock()
+	defer s.mx.Unlock()
+	return s.started[table]
 }
 
 // VerifForget drops the hook state kept for a closed DB.
